@@ -1033,6 +1033,9 @@ class RZILTransformer(Transformer):
             )
         elif isinstance(items[0], list) or not items[1]:
             # This is a compound statement.
+            if isinstance(items[0], list) and isinstance(items[1], Effect):
+                # Its last statement is parsed as the expression statement of the rule. Do not drop it.
+                return [items[0], items[1]]
             return items[0]
         p: Pure = items[1]
         e: Effect = items[0]
